@@ -24,6 +24,9 @@ def check(run):
     # quoting (CsvReader / RefRead: bom and first-defective-line compared under every delivery schedule)
     from . import c10, c12
     c10.mc_and_replay(run, 'C14-none-and-separator-warnings', 'R_none', 2, ['simple', 'quoted', 'quoted_rfc'], 44, 0)
+    # a delimiter of two DIFFERENT characters: fields that only glue together into a separator ("a," + ";b" under ",;") do not make the
+    # output lossy and must not be reported; fields that contain it must be (DelimWarn counts separators in the joined line)
+    c10.mc_and_replay(run, 'C14-separator-warning-two-character-delimiter', 'R_f2x2', 1, ['simple', 'quoted'], 44, 59)
     c10.mc_and_replay(run, 'C14-none-inside-list-cells', 'R_list', 1, ['simple', 'quoted'], 44, 0)
     c12.mc_and_replay(run, 'C14-bom-and-malformed-quoting', [97, 65279, 34, 10, 44], 3 if quick else 4, 'utf-8', policies=['quoted', 'quoted_rfc'], cmts=[0])
     run.exhaustive = True
